@@ -90,3 +90,35 @@ Print Assumptions C07_source_from_bitvector.
 Theorem C07_source_get_word : forall b i, g_bv_get_word (chunks 8 (bv_words b)) i = bv_get_word b i.
 Proof. exact g_bv_get_word_ok. Qed.
 Print Assumptions C07_source_get_word.
+
+(* ---- the CONSTRUCTION regenerated from src/darray/mod.rs on every run (T5, Gen/FnsDanew.v: Inventories::flush_block with its
+   three `&mut Vec`, Inventories::<BIT>::new — `for pos in bv.ones()` / `bv.zeros()` as the iterator protocol over the
+   regenerated position iterator, a flush every 1024 positions and a last one — DArray::<SELECT0_SUPPORT>::new and
+   FromIterator<bool>): equal to / simulated by the hand model, and end to end: the regenerated constructor returns the fields
+   of a structure on which the regenerated queries satisfy the contract [C07_gen] (= C07_source_contract), from a bit vector and
+   from a bit sequence (through the regenerated BitVector::from_iter). *)
+From QwtModel Require Import FnsBvnew FnsDanew FnsBvnewOk FnsDanewOk FnsDaFromOk.
+Theorem C07_source_flush_block : forall curr blk sub ovf,
+  ge_hd curr -> hd 0 curr < 2 ^ 63 -> len curr + 32 < 2 ^ 64 -> len ovf < 2 ^ 63 ->
+  g_da_flush_block curr blk sub ovf =
+  let! (b', s', o') := flush_block curr (rev blk, rev sub, rev ovf) in Val (rev b', rev s', rev o').
+Proof. exact g_da_flush_block_ok. Qed.
+Print Assumptions C07_source_flush_block.
+Theorem C07_source_inventories_new : forall bit b fuel inv, bv_inv b ->
+  (N.to_nat (bv_nbits b) + length (bv_words b) + 2 <= fuel)%nat ->
+  inv_new bit b = Val inv ->
+  gi_new bit fuel (chunks 8 (bv_words b)) (bv_nbits b) (bv_nones b) = Val (inv_fields inv).
+Proof. exact gi_new_sim. Qed.
+Print Assumptions C07_source_inventories_new.
+Theorem C07_source_new : forall s0 b fuel, bv_inv b ->
+  (N.to_nat (bv_nbits b) + length (bv_words b) + 2 <= fuel)%nat ->
+  exists d,
+    g_da_new s0 fuel (chunks 8 (bv_words b)) (bv_nbits b) (bv_nones b) = Val (da_fields d) /\
+    da_new s0 b = Val d /\ da_bv d = b /\ da_types_ok d /\ C07_gen s0 d (bv_abs b).
+Proof. exact g_da_new_of_bitvector. Qed.
+Print Assumptions C07_source_new.
+Theorem C07_source_from_bools : forall s0 bs fuel, len bs < 2 ^ 63 ->
+  (N.to_nat (len bs) + N.to_nat (8 * ((len bs + 511) / 512)) + 2 <= fuel)%nat ->
+  exists d, g_da_from_bools s0 fuel bs = Val (da_fields d) /\ da_types_ok d /\ C07_gen s0 d bs.
+Proof. exact g_da_from_bools_correct. Qed.
+Print Assumptions C07_source_from_bools.
